@@ -555,3 +555,92 @@ func init() {
 		"non-trivial = the object has >= 2 members besides signatures/unsigned and the step applied is a value-changing single-member mutation or a re-serialisation that changes at least one byte; distinct = distinct Case JSON",
 		2000, 200000, 16, c02Gen, c02Check)
 }
+
+// ---------------------------------------------------------------------------------------------
+// C02/checksum-twins — pairs of objects of the same length whose canonical texts have the same 32-bit
+// checksum (CRC-32 IEEE / Castagnoli, FNV-1 / FNV-1a; found by search, fixed here). One is signed and
+// verified, then the other is presented with the first one's signature (and the other way round):
+// "any change to any member" includes the changes a coarse fingerprint of the text does not see.
+
+type c02TwinCase struct {
+	Sum   string  `json:"checksum"`
+	A     vfBytes `json:"a"`
+	B     vfBytes `json:"b"`
+	First string  `json:"first"` // which of the two is signed and verified first: a | b
+}
+
+var c02Twins = [][3]string{
+	{"crc32-ieee", `{"amount":10,"payee":"alice","ref":"AAAAAAAA"}`, `{"amount":99,"payee":"mallo","ref":"FCtagSAA"}`},
+	{"crc32-castagnoli", `{"amount":10,"payee":"alice","ref":"AAAAAAAA"}`, `{"amount":99,"payee":"mallo","ref":"HTUMt1AA"}`},
+	{"fnv32a", `{"amount":10,"payee":"alice","ref":"AAAAAAAA"}`, `{"amount":99,"payee":"mallo","ref":"FBFCKpAA"}`},
+	{"fnv32", `{"amount":10,"payee":"alice","ref":"AAAAAAAA"}`, `{"amount":99,"payee":"mallo","ref":"HBXycjAA"}`},
+}
+
+func c02EnumTwins(size, shard, nshards int, emit func(c02TwinCase)) {
+	for i, tw := range c02Twins {
+		if i%nshards != shard {
+			continue
+		}
+		emit(c02TwinCase{Sum: tw[0], A: vfBytes(tw[1]), B: vfBytes(tw[2]), First: "a"})
+		emit(c02TwinCase{Sum: tw[0], A: vfBytes(tw[1]), B: vfBytes(tw[2]), First: "b"})
+	}
+}
+
+func c02TwinCheck(ctx *vfCtx, c c02TwinCase) {
+	ctx.NonTrivial()
+	ctx.Class("checksum/" + c.Sum)
+	genuine, forged := []byte(c.A), []byte(c.B)
+	if c.First == "b" {
+		genuine, forged = forged, genuine
+	}
+	pub, priv := vfKeyFor("k1")
+	const name, keyID = "twins.example", KeyID("ed25519:t")
+	var signed []byte
+	var err error
+	if vfCatch(ctx, "C02/twins", func() { signed, err = SignJSON(name, keyID, priv, append([]byte(nil), genuine...)) }) {
+		return
+	}
+	if err != nil {
+		ctx.Fail("C02/sign-error", "SignJSON(%q) failed: %v", genuine, err)
+		return
+	}
+	var v1, v2, v3 error
+	sv, _, perr := jparse(signed)
+	fv, _, ferr := jparse(forged)
+	if perr != nil || ferr != nil {
+		ctx.Unjudged("generator: twins do not parse")
+		return
+	}
+	sigs, _ := sv.get("signatures")
+	withSig := []byte(jplain(fv.with("signatures", sigs)))
+	if vfCatch(ctx, "C02/twins", func() {
+		v1 = VerifyJSON(name, keyID, pub, append([]byte(nil), signed...))
+		v2 = VerifyJSON(name, keyID, pub, append([]byte(nil), withSig...))
+		v3 = VerifyJSON(name, keyID, pub, append([]byte(nil), signed...))
+	}) {
+		return
+	}
+	if v1 != nil || v3 != nil {
+		ctx.Fail("C02/own-signature-rejected", "the signed object does not verify (before the twin: %v, after it: %v); %q", v1, v3, signed)
+		return
+	}
+	if v2 == nil {
+		ctx.Fail("C02/tamper-accepted/same-length-same-checksum", "an object of the same length and the same %s checksum as the signed one verifies with its signature: signed %q, presented %q", c.Sum, genuine, withSig)
+		return
+	}
+	// the canonical forms themselves
+	var c1, c2 []byte
+	if vfCatch(ctx, "C02/twins", func() {
+		c1, _ = CanonicalJSON(append([]byte(nil), genuine...))
+		c2, _ = CanonicalJSON(append([]byte(nil), forged...))
+	}) {
+		return
+	}
+	if string(c1) != string(genuine) || string(c2) != string(forged) {
+		ctx.Fail("C02/twins/canonical-form-of-the-other", "CanonicalJSON(%q) = %q, CanonicalJSON(%q) = %q (both texts are canonical already)", genuine, c1, forged, c2)
+	}
+}
+
+func init() {
+	vfEnum("C02/checksum-twins", "every case: two objects of equal length and equal 32-bit checksum, one signed, the other presented with its signature; distinct = distinct Case JSON", 1, 1, 1, c02EnumTwins, c02TwinCheck)
+}
